@@ -68,6 +68,69 @@ def run_janet(janet, cases, workdir, tag, timeout=300):
     return out, crashes
 
 
+def kmp_exhaustive_impl(janet, maxpat, maxlen):
+    """every pattern over {a,b} up to maxpat x every text up to maxlen on the implementation vs python; returns
+    (evaluations, list of patterns whose checksum differs / crash records)"""
+    import itertools
+    pats = [bytes(p) for n in range(1, maxpat + 1) for p in itertools.product(b"ab", repeat=n)]
+    texts = [bytes(t) for n in range(0, maxlen + 1) for t in itertools.product(b"ba", repeat=n)]
+    # janet enumerates `code` with bit k = 0 -> 'a'; reproduce that order
+    texts = []
+    for n in range(0, maxlen + 1):
+        for code in range(1 << n):
+            texts.append(bytes(97 if not (code >> k) & 1 else 98 for k in range(n)))
+    M = 1000003
+
+    def expect(pat):
+        c = 7
+        for t in texts:
+            i = t.find(pat)
+            while i >= 0:
+                c = (c * 31 + i + 1) % M
+                i = t.find(pat, i + 1)
+            c = (c * 31) % M
+            c = (c * 31 + 2 + (t.find(pat, 1) if len(t) >= 1 else -1)) % M
+            r = t.replace(pat, b"xy")
+            c = (c * 31 + len(r)) % M
+            for ch in r:
+                c = (c * 31 + ch) % M
+            parts = t.split(pat, 2)
+            c = (c * 31 + len(parts)) % M
+            for p_ in parts:
+                c = (c * 31 + len(p_)) % M
+        return c
+    script = os.path.join(VERIF, "harness/C17/kmp_exhaustive.janet")
+    groups = [pats[i::16] for i in range(16)]
+
+    def one(g):
+        if not g:
+            return 0, b"", b""
+        return run_cmd([janet, script, str(maxlen)] + [p.hex() for p in g], timeout=1500, env=ENV)
+    bad = []
+    with cf.ThreadPoolExecutor(16) as ex:
+        futs = [ex.submit(one, g) for g in groups]
+        exp = {p.hex(): expect(p) for p in pats}
+        for g, fu in zip(groups, futs):
+            rc, so, se = fu.result()
+            got = dict(l.split() for l in so.decode(errors="replace").splitlines() if len(l.split()) == 2)
+            for p in g:
+                h = p.hex()
+                if h not in got:
+                    bad.append({"pattern": h, "why": "no result (rc=%s) %s" % (rc, se.decode(errors="replace")[-300:])})
+                elif int(got[h]) != exp[h]:
+                    bad.append({"pattern": h, "why": "checksum differs"})
+    return len(pats) * len(texts), bad, texts
+
+
+def kmp_minimise(janet, pat_hex, texts):
+    """find the first text on which find-all / replace-all / split differ from python for this pattern"""
+    pat = bytes.fromhex(pat_hex)
+    for t in texts:
+        for f, a in (("string/find-all", [L.S(pat), L.S(t)]), ("string/replace-all", [L.S(pat), L.S(b"xy"), L.S(t)]),
+                     ("string/split", [L.S(pat), L.S(t), L.I(0), L.I(3)]), ("string/find", [L.S(pat), L.S(t), L.I(1)])):
+            yield (f, a)
+
+
 def errclass(msg_hex):
     try:
         m = bytes.fromhex(msg_hex).decode(errors="replace")
@@ -204,7 +267,7 @@ def run(ctx):
 
 def _run(ctx, quick, broken, exe, janet, workdir):
     g = Gen(ctx.rng.fork("c17-cases"))
-    n = 24000 if quick else 400000
+    n = 60000 if quick else 1000000
     if broken:
         n *= 3      # something in A-C broke: search harder for a failing input
     cases = corpus_cases()
@@ -212,6 +275,28 @@ def _run(ctx, quick, broken, exe, janet, workdir):
     cases += [g.case() for _ in range(n)]
     ctx.say("running %d cases (%d corpus) on janet(asan), model driver and python oracle" % (len(cases), ncorpus))
     recs, crashes = evaluate(ctx, janet, exe, cases, workdir, "main")
+    # ---- bounded-exhaustive: KMP mirror (Lib/Kmp.lean) = naive definitions (Lib/Spec.lean) over {a,b}
+    kmp_ex = None
+    if exe:
+        kmp_ex = ctx.model(["kmp-exhaustive 4 9" if quick else "kmp-exhaustive 5 11"], exe=exe)[0]
+        if not kmp_ex.startswith("ok "):
+            broken.append("Lib/Kmp mirror differs from the naive search definition: " + kmp_ex)
+            ctx.broken.append(broken[-1])
+    # ---- bounded-exhaustive on the implementation: search family over {a,b} vs python
+    kx_n, kx_bad, kx_texts = kmp_exhaustive_impl(janet, 6 if quick else 8, 10 if quick else 12)
+    if kx_bad:
+        # turn the first differing pattern into concrete failing calls through the normal pipeline
+        extra = list(kmp_minimise(janet, kx_bad[0]["pattern"], kx_texts))
+        recs2, crashes2 = evaluate(ctx, janet, exe, extra, workdir, "kmpx")
+        bad2 = [r for r in recs2 if any(k == "oracle" for k, _ in judge(r))]
+        recs += bad2[:3]
+        crashes += [dict(c, id=None) for c in crashes2]
+        cases += [r["case"] for r in bad2[:3]]
+        for i, r in enumerate(recs[-len(bad2[:3]):] if bad2 else []):
+            r["id"] = len(recs) - len(bad2[:3]) + i
+        if not bad2:
+            broken.append("bounded-exhaustive search check differs for pattern %s (%s)" % (kx_bad[0]["pattern"], kx_bad[0]["why"]))
+            ctx.broken.append(broken[-1])
     # ---- tallies
     per_fn, outcome = {}, {"ok": 0, "err": 0}
     errkinds = {}
@@ -279,7 +364,7 @@ def _run(ctx, quick, broken, exe, janet, workdir):
                 b = b if b < 10 else (b // 10) * 10
                 sizes[b] = sizes.get(b, 0) + 1
     cov = {
-        "evaluations": len(cases),
+        "evaluations": len(cases) + kx_n * 4,
         "distinct_nontrivial": len(set(r["line"] for r in recs)),
         "rule": "one evaluation = one library call with generated arguments executed on janet(asan+ubsan) and compared with "
                 "(a) the Lean model driver jm_c17 (result + every argument re-read after the call) and (b) the python reference; "
@@ -292,6 +377,8 @@ def _run(ctx, quick, broken, exe, janet, workdir):
         "compared_with_model": n_model, "compared_with_python_oracle": n_oracle,
         "model_diffs": len(model_fail), "oracle_diffs": len(oracle_fail), "crashes": len([c for c in crashes if c["id"] is not None]),
         "argument_sizes": {str(k): sizes[k] for k in sorted(sizes)},
+        "kmp_mirror_vs_naive_exhaustive": kmp_ex,
+        "search_family_exhaustive_on_impl": {"pattern_text_pairs": kx_n, "calls": kx_n * 4, "differing_patterns": len(kx_bad)},
         "tested_only": "string/format / buffer/format directives are not modelled in Lean (tested against python % formatting only)",
     }
     return ctx.finish("proof", cov, assumptions=[
